@@ -5,6 +5,7 @@
 
 #include <etl/_config/all.hpp>
 
+#include <etl/_cmath/signbit.hpp>
 #include <etl/_type_traits/is_constant_evaluated.hpp>
 #include <etl/_type_traits/is_same.hpp>
 
@@ -14,7 +15,7 @@ namespace detail {
 template <typename T>
 constexpr auto copysign_fallback(T x, T y) noexcept -> T
 {
-    if ((x < 0 and y > 0) or (x > 0 and y < 0)) {
+    if (etl::signbit(x) != etl::signbit(y)) {
         return -x;
     }
     return x;
